@@ -243,6 +243,91 @@ def run_separate(C, job):
     C.samples.append({'separate': f'{nsets} state sets, chunk {chunk}', 'scenarios': len(combos), 'paths': npaths})
 
 
+def run_creator_cache(C, job):
+    """get_power_level_for_sender: reverse_topological_power_sort calls it for every graph node *in HashMap iteration order* with a
+    shared creator cache (OnceLock).  Decided here: the power level computed for an event B is the same whether the cache is still
+    empty (B visited first) or was filled while visiting another event A of the same room (A visited first) - for every
+    symbolic world of checks/c08.py (sender, creator, power levels, which auth events B cites)."""
+    version = job
+    import c08
+    from authsym import install, rules_for_version, int_val
+    from spec import auth_rules as SPEC
+    E = C.fresh_engine(KEYS, N=8)
+    E.src.load(C.extra[('events', 'dumped')][2])
+    E.feas_mode = 'budget'; E.feas_timeout_ms = 300
+    E.alloc_const = lambda v: c08.alloc_const(E, v)
+    rules, _ = rules_for_version(C, E, version)
+    w = c08.World(E, 'state')
+    install(C, E, w)
+    ev, fetch_obj, reads = c08.build(C, E, w, rules)
+    label = f'v{version}:sender power level independent of the creator cache'
+    evid = lambda b: Adt('ruma_common::identifiers::event_id::OwnedEventId', None, [E.const_str(b)])
+    # A: another event of the room that cites the create event
+    ev_a = Obj('Event', dict(ev.data, event_id=evid(b'$a:x'), auth_events_outcomes=lambda: [(TRUE, Obj('SeqIter', ((E.alloc_const(w.create_id_obj),), 0)))]))
+
+    def fetch_event(E_, st, args):
+        s_ = E_.as_str(st, args[0]).conc()
+        if s_ == b'$c:x': return [(w.create_present, some(w.create_event_obj)), (z3.Not(w.create_present), NONE)]
+        if s_ == b'$o:x': return [(w.pl_present, some(w.pl_event_obj)), (z3.Not(w.pl_present), NONE)]
+        if s_ == b'$e:x': return [(TRUE, some(ev))]
+        if s_ == b'$a:x': return [(TRUE, some(ev_a))]
+        raise Inconclusive(f'fetch_event({s_})')
+    fe = Obj('PyFn', fetch_event)
+    # &OwnedUserId -> &UserId: the string itself (the cached value is held by value in the OnceLock model)
+    E.overrides.insert(0, (re.compile(r'^<(?:ruma_common::|identifiers::user_id::)?OwnedUserId as std::ops::Deref>::deref$'), lambda E_, st_, c, a, m: [(TRUE, E_.as_str(st_, a[0]))]))
+    f = E.find_func('get_power_level_for_sender')
+    _, applicable = SPEC.accepts(w, version)
+    cons = list(w.cons) + [applicable]
+    st = E.new_state()
+    rref = E.root_ref(st, rules)
+
+    def run(st0, event_id, lock_ref, extra):
+        return E.run_func(f, [E.const_str(event_id), rref, lock_ref, fe], extra, st=st0)
+    # B first (empty cache)
+    lock1 = E.root_ref(st, Obj('OnceLock', None))
+    first = run(st, b'$e:x', lock1, cons)
+    # A first, then B with the cache A left behind
+    lock2 = E.root_ref(st, Obj('OnceLock', None))
+    after_a = run(st, b'$a:x', lock2, cons)
+    second = []
+    for oa in after_a:
+        if oa.kind != 'ret':
+            continue
+        second += [(oa, ob) for ob in E.run_func(f, [E.const_str(b'$e:x'), rref, lock2, fe], [], st=oa.st)]
+    C.absorb(E)
+    val = lambda o: ('err', None) if o.value.variant == 'Err' else ('ok', int_val(o.value.fields[0]))
+    bad = []
+    for o1 in first:
+        if o1.kind != 'ret':
+            bad.append(o1.cond()); continue
+        k1, v1 = val(o1)
+        for oa, ob in second:
+            if ob.kind != 'ret':
+                bad.append(ob.cond()); continue
+            k2, v2 = val(ob)
+            both = z3.And(o1.cond(), ob.cond())
+            if k1 != k2: bad.append(both)
+            elif k1 == 'ok': bad.append(z3.And(both, v1 != v2))
+    r, m = C.solve_split(label + f' ({len(first)} x {len(second)} path pairs)', cons + list(E.axioms), bad, chunk=32)
+    C.bounds[label] = {'paths_empty_cache': len(first), 'paths_after_other_event': len(second)}
+    if r == 'sat':
+        vec = SPEC.concretise(w, m, version)
+        vec['op'] = 'c06:creator_cache'
+        res = C.native(vec); vec['native'] = res
+        role = 'creator cache: power level of an event without create event in its auth events'
+        what = f'{label}: power level of the sender of {vec["summary"]["incoming"]} is {res.get("empty_cache")} with an empty creator cache and {res.get("filled_cache")} after another event of the room was visited'
+        if res.get('r') == 'ok' and res.get('empty_cache') != res.get('filled_cache'):
+            if C.is_known(role):
+                C.report_known(role, what[:400])
+            else:
+                C.report_violation(what, vec)
+                C.samples.append({'counterexample': vec['summary'], 'native': res})
+        else:
+            raise Broken(f'{label}: model does not reproduce natively: {res}: {vec["summary"]}')
+    else:
+        C.samples.append({'creator_cache': label, 'pairs': len(first) * len(second)})
+
+
 def expected_order(nodes):
     done, out = set(), []
     byid = {x['id']: x for x in nodes}
@@ -277,6 +362,9 @@ def body(C):
         jobs += [(run_separate, (1, 0, 1)), (run_separate, (2, 0, 2)), (run_separate, (2, 1, 2))]
         if C.tier == 'thorough':
             jobs += [(run_separate, (3, i, 12)) for i in range(12)]
+        C.extra[('events', 'dumped')] = C.dump('events', want_mir=False)
+        jobs += [(run_creator_cache, v) for v in ((1, 11) if C.tier == 'quick' else (1, 6, 10, 11))]
+        C.assumptions.append('creator cache (get_power_level_for_sender): the symbolic world of C08 (state-event kind); the event cites either the create event or the power-levels event; the other visited event cites the create event')
         C.assumptions.append('conflict separation (separate): 1-2 state sets (3 thorough) over two state keys and two event ids, every combination (key absent / either id), every iteration order of the state maps, the occurrence map and its inner maps; results compared as maps / sets')
         C.assumptions.append('auth-chain difference (get_auth_chain_diff): 1-3 chains over a universe of 3 (2 for three chains) event ids, every subset combination, every iteration order of the sets and of the counting map; result compared as a set')
     parts = os.environ.get('VERIF_PARTS')
